@@ -31,10 +31,27 @@ def ss_global(mod, ns):
     return None
 
 
-def param_of(fn, e, groups_src):
-    """map an object expression to the index of the source parameter it denotes (or None)."""
-    while e[0] == "call" and re.search(r"::operator\*\(\) const$|::operator->\(\) const$|::get\(\) const$", e[1]) and e[2]:
-        e = e[2][0]
+def param_of(fn, e, groups_src, S=None, depth=0):
+    """map an object expression to the index of the source parameter it denotes (or None).
+    Looks through smart-pointer dereferences, loads of the object pointer held by a by-reference
+    virtual_ptr, and temporaries copy/move-constructed from a parameter."""
+    if depth > 6:
+        return None
+    while True:
+        if e[0] == "call" and re.search(r"::operator\*\(\) const$|::operator->\(\) const$|::get\(\) const$", e[1]) and e[2]:
+            e = e[2][0]
+        elif e[0] == "load":
+            e = e[1]
+        elif e[0] == "add" and len(e) == 3 and e[2][0] == "const":
+            e = e[1]
+        else:
+            break
+    if e[0] == "alloca" and S is not None:
+        srcv = sym.init_source(S, e)
+        if srcv is not None:
+            return param_of(fn, srcv, groups_src, S, depth + 1)
+        if e[3] != 0:
+            return None
     if e[0] == "arg":
         for pi, (stem, idxs) in enumerate(groups_src):
             if e[1] in idxs:
@@ -68,7 +85,7 @@ def param_of(fn, e, groups_src):
     return None
 
 
-def normalise_leaves(fn, e, groups_src, vpos, notes):
+def normalise_leaves(fn, e, groups_src, vpos, notes, S=None):
     """replace opaque v-table-pointer leaves by ('vptr', j) (j-th virtual parameter) or
     ('vptr-of', description) when the object is not a virtual parameter."""
     if not isinstance(e, tuple):
@@ -76,18 +93,18 @@ def normalise_leaves(fn, e, groups_src, vpos, notes):
     if e[0] == "call" and re.search(OPAQUE, e[1]):
         # the object is the last argument of dynamic_vptr(arg) / the `this` of _vptr()
         obj = e[2][-1] if "dynamic_vptr" in e[1] else e[2][0]
-        p = param_of(fn, obj, groups_src)
+        p = param_of(fn, obj, groups_src, S)
         if p is None:
             return ("vptr-of", sym.show(obj))
         if p in vpos:
             return ("vptr", vpos.index(p))
         return ("vptr-of-nonvirtual-param", p)
     if e[0] in ("add", "mul"):
-        parts = [normalise_leaves(fn, x, groups_src, vpos, notes) for x in e[1:]]
+        parts = [normalise_leaves(fn, x, groups_src, vpos, notes, S) for x in e[1:]]
         return sym.mk_add(parts) if e[0] == "add" else sym.mk_mul(parts)
     if e[0] == "call":
-        return ("call", e[1], tuple(normalise_leaves(fn, x, groups_src, vpos, notes) for x in e[2]))
-    return (e[0],) + tuple(normalise_leaves(fn, x, groups_src, vpos, notes) if isinstance(x, tuple) else x for x in e[1:])
+        return ("call", e[1], tuple(normalise_leaves(fn, x, groups_src, vpos, notes, S) for x in e[2]))
+    return (e[0],) + tuple(normalise_leaves(fn, x, groups_src, vpos, notes, S) if isinstance(x, tuple) else x for x in e[1:])
 
 
 def expected(n, slots_base, strides_base, stride_off0):
@@ -137,7 +154,7 @@ def check_unit(run, u, rule, do_resolve=True):
             targets.append(("operator()", f, v))
         if do_resolve and all(ch in "rcmVWXYidutqk" for ch in shape):
             for f in find_method_fn(mod, ns, "resolve"):
-                targets.append(("resolve", f, S.returned(f, {k: ("arg", k) for k in range(len(f.args))})))
+                targets.append(("resolve", f, S.returned(f, {k: ("arg", k) for k in range(len(f.args))}, top=True)))
         if not targets:
             run.broken.append("no operator()/resolve instantiation found for %s" % ns)
         for what, f, v in targets:
@@ -145,7 +162,7 @@ def check_unit(run, u, rule, do_resolve=True):
             if len(src) != len(shape):
                 run.broken.append("cannot map IR arguments of %s to the %d declared parameters" % (f.dname[:120], len(shape)))
                 continue
-            got = normalise_leaves(f, v, src, vpos, [])
+            got = normalise_leaves(f, v, src, vpos, [], S)
             ok = got == exp
             run.instance(rule, "%s %s shape=%s policy=%s" % (what, ns, shape, pol), f.where(), ok=ok,
                          detail={"value": sym.show(got)[:600]})
